@@ -4,6 +4,7 @@
 mod common;
 mod props;
 mod rawmodel;
+mod vecmodel;
 
 use common::runner::main_for;
 
@@ -18,6 +19,8 @@ fn main() {
     let code = match id {
         "C01" => main_for::<props::c01::P>(rest),
         "C02" => main_for::<props::c02::P>(rest),
+        "C03" => main_for::<props::c03::P>(rest),
+        "C04" => main_for::<props::c04::P>(rest),
         _ => {
             eprintln!("unknown property {id}");
             2
